@@ -6,7 +6,7 @@
                            starts where the previous one ends;   [of_batch b l] = the updates of batch b, in table order;
     [client_job_id start rel] = start + rel - 1: the arithmetic of aioclient.Job._submit (tied to the real class by the
                            smoke test of harness/props/C09.py); [client_group_id] likewise for JobGroup._submit. *)
-From HailV Require Import Common.Prelude BatchDB.Model BatchDB.Tables BatchDB.CMap BatchDB.Legal BatchDB.Obs BatchDB.StepFrame BatchDB.Cancel BatchDB.Idem.
+From HailV Require Import Common.Prelude BatchDB.Model BatchDB.Tables BatchDB.CMap BatchDB.Legal BatchDB.Obs BatchDB.StepFrame BatchDB.Cancel BatchDB.Idem BatchDB.Race.
 Open Scope Z_scope.
 
 (* ------------------------------------------------------------------ (1) a request re-sent right away *)
@@ -175,6 +175,46 @@ Proof.
   rewrite K4, K6, E2, E3 in Fj. eexists. split; [exact Fj|]. cbn. auto.
 Qed.
 Print Assumptions C09_client_ids.
+
+(* ------------------------------------------------------------------ (5) OVERLAPPING deliveries: the two serial orders *)
+
+(** The correspondence executes two requests o1, o2 overlapping on the real code (o1 paused after a read-only prefix, o2 to
+    completion or until it blocks on a lock of o1) and demands SERIALISABILITY: (state after both, answer to o1, answer to o2)
+    must be one of [race_outcomes s o1 o2] = the outcomes of `o1; o2` and of `o2; o1` in the model ([serial]).
+
+    A request and its verbatim retry: the two serial orders are ONE outcome -- the state of a single delivery, both
+    deliveries answered as that one (ANY state; batch-create, update-create, job-bunch, commit). *)
+Theorem C09_retry_commutes : forall s o, retriable o ->
+  forall x, In x (race_outcomes s o o) -> x = (fst (step s o), snd (step s o), snd (step s o)).
+Proof. exact retry_commutes. Qed.
+Print Assumptions C09_retry_commutes.
+
+(** Two update-creates of one batch (another client's update of the same batch) that both reserve a new range, served in
+    either order from a state with well-formed ranges (every state of every history: C09_ranges): the one served second is
+    answered the update id and the job / group ranges IMMEDIATELY AFTER those of the one served first.  So the two serial
+    orders differ observably -- exactly in which request gets the lower and which the upper range -- and the tie accepts
+    exactly these two outcomes (Race.race_demo_outcomes: a concrete state where they differ). *)
+Theorem C09_race_updates_adjacent : forall s b user1 t1 nj1 ng1 user2 t2 nj2 ng2,
+  ranges_ok s ->
+  let o1 := CreateUpdate b user1 t1 nj1 ng1 in let o2 := CreateUpdate b user2 t2 nj2 ng2 in
+  let s1 := fst (step s o1) in
+  s1 <> s -> fst (step s1 o2) <> s1 ->
+  exists uid sg sj,
+    snd (step s o1) = ok [uid; sg; sj] /\ snd (step s1 o2) = ok [uid + 1; sg + ng1; sj + nj1].
+Proof. exact race_updates_adjacent. Qed.
+Print Assumptions C09_race_updates_adjacent.
+
+(** ... hence, over every history and in either order, the two answered ranges are disjoint and the update ids differ. *)
+Theorem C09_race_updates_disjoint : forall ops b user1 t1 nj1 ng1 user2 t2 nj2 ng2,
+  let s := run ops in
+  let o1 := CreateUpdate b user1 t1 nj1 ng1 in let o2 := CreateUpdate b user2 t2 nj2 ng2 in
+  let s1 := fst (step s o1) in
+  s1 <> s -> fst (step s1 o2) <> s1 ->
+  forall uid1 sg1 sj1 uid2 sg2 sj2,
+    snd (step s o1) = ok [uid1; sg1; sj1] -> snd (step s1 o2) = ok [uid2; sg2; sj2] ->
+    uid1 <> uid2 /\ sj1 + nj1 <= sj2 /\ sg1 + ng1 <= sg2.
+Proof. intros ops b user1 t1 nj1 ng1 user2 t2 nj2 ng2 s. apply race_updates_disjoint, ranges_ok_run. Qed.
+Print Assumptions C09_race_updates_disjoint.
 
 (** Example history (two updates after the first, all requests re-sent): ranges as stated, retries change nothing. *)
 Theorem C09_example :
